@@ -30,7 +30,7 @@ from ...entity_query_language.predicate import Symbol
 from ...entity_query_language.symbol_graph import (
     SymbolGraph,
 )
-from ...entity_query_language.utils import make_set
+from ...entity_query_language.utils import make_list, make_set
 
 SymbolType = Type[Symbol]
 """
@@ -230,7 +230,7 @@ class PropertyDescriptor(Symbol):
                     self.domain, self.wrapped_field.name, type(value)
                 )
             monitored_value = monitored_type(descriptor=self)
-            for v in make_set(value):
+            for v in make_list(value):
                 monitored_value._add_item(v, inferred=False)
             value = monitored_value
         return value
@@ -251,7 +251,7 @@ class PropertyDescriptor(Symbol):
             setattr(obj, self.private_attr_name, attr)
         if isinstance(attr, MonitoredContainer):
             # take the new elements first: `value` may be `attr` itself (x.f = x.f, x.f += ...)
-            new_values = make_set(value)
+            new_values = make_list(value)
             attr._clear()
             for v in new_values:
                 attr._add_item(v, inferred=False)
